@@ -20,6 +20,7 @@ var checks = map[string]struct {
 	"C29": {"exploration", c29},
 	"C15": {"exploration", c15},
 	"C25": {"exploration", c25},
+	"C27": {"exploration", c27},
 }
 
 func main() {
